@@ -4,6 +4,7 @@
 // with exact-size, non-NUL-terminated sources.
 #include "common.hpp"
 #include "inspect.hpp"
+#include "digest_twins.hpp"
 #include "reserved.hpp"
 #include <ipr/impl>
 #include <unordered_map>
@@ -395,6 +396,19 @@ static void own_storage_workload(Harness& H, bool thorough)
    H.checkpoint(true);
 }
 
+// A keyword table looked up by a digest instead of by spelling would take these ordinary words for reserved ones.
+static void digest_twins_workload(Harness& H)
+{
+   impl::Lexicon elsewhere;
+   for (auto w : digest_twins_of_reserved_words) {
+      const String& n = H.intern(w, "digest-twin-of-a-reserved-word");
+      for (auto r : reserved_words) if (&n == &elsewhere.get_string(r)) ctx().viol("digest-twin:ordinary-word-is-a-reserved-constant", "an ordinary word was interned as the process-wide node of a reserved word", Harness::desc(w, "digest-twin-of-a-reserved-word"));
+      ctx().count("digest_twins_interned");
+   }
+   for (auto r : reserved_words) H.intern(narrow(r), "reserved");
+   for (auto w : digest_twins_of_reserved_words) H.intern(w, "digest-twin-of-a-reserved-word");
+}
+
 static void oversize_workload(Harness& H, bool thorough)
 {
    std::uint64_t tag = 1u << 29;
@@ -434,7 +448,7 @@ static void body(Ctx& C)
           "all earlier Strings are re-read (address, length, bytes) and storage intervals [header,end) are checked pairwise disjoint");
    C.assume("storage interval of a dynamic word = 8-byte length header immediately before characters() (pinned layout), used only for the overlap check");
    for (auto k : { "pool_rollovers", "oversize_own_pool", "oversize_fitted_current_pool", "boundary_requests_rolled_over", "boundary_requests_fitted",
-                   "equal_hash_chains_verified", "equal_hash_prefix_chains_verified", "words_given_an_equal_hash_neighbour", "re_interned", "rechecks", "interval_checks", "reserved_words_checked", "interned:reserved-near-miss", "first_pool_filled_exactly", "views_into_pool_storage", "sources_at_odd_alignment" }) C.need(k);
+                   "equal_hash_chains_verified", "equal_hash_prefix_chains_verified", "words_given_an_equal_hash_neighbour", "re_interned", "rechecks", "interval_checks", "reserved_words_checked", "interned:reserved-near-miss", "first_pool_filled_exactly", "views_into_pool_storage", "sources_at_odd_alignment", "digest_twins_interned" }) C.need(k);
    {  // a completely empty first pool: words that fill it exactly, or miss by one byte
       for (long long n : { (1LL << 20) - 8, (1LL << 20) - 7, (1LL << 20) - 24, (1LL << 20) - 9 }) {
          Harness F(C.seed + 17 + std::uint64_t(n));
@@ -451,6 +465,7 @@ static void body(Ctx& C)
    reserved_and_empty(H, other);
    collisions_workload(H, C.thorough);
    own_storage_workload(H, C.thorough);
+   digest_twins_workload(H);
    pool_boundaries_workload(H, C.thorough ? 60 : 10, C.thorough);
    oversize_workload(H, C.thorough);
    // random words, then everything again in random order
